@@ -1,6 +1,8 @@
 package rhp
 
 import (
+	"fmt"
+
 	"go.sia.tech/core/types"
 )
 
@@ -230,7 +232,14 @@ func (r *RPCReadResponse) DecodeFrom(d *types.Decoder) {
 	//
 	// NOTE: for maximum efficiency, we should be doing this for every slice,
 	// but in most cases the extra performance isn't worth the aliasing issues.
-	dataLen := int(d.ReadUint64())
+	dataLen64 := d.ReadUint64()
+	if dataLen64 > SectorSize {
+		// a section never spans more than one sector; without this check a
+		// bogus length panics (negative or huge slice bounds)
+		d.SetErr(fmt.Errorf("data length (%v) exceeds sector size", dataLen64))
+		return
+	}
+	dataLen := int(dataLen64)
 	if cap(r.Data) < dataLen {
 		r.Data = make([]byte, dataLen)
 	}
